@@ -155,6 +155,14 @@ impl T {
             _ => 0,
         }
     }
+    /// container levels, as `Model.depth` counts them
+    fn depth_all(&self) -> usize {
+        match self {
+            T::L(xs) | T::Tu(xs) => 1 + xs.iter().map(|x| x.depth_all()).max().unwrap_or(0),
+            T::M(es) => 1 + es.iter().map(|(_, v)| v.depth_all()).max().unwrap_or(0),
+            _ => 0,
+        }
+    }
     fn walk(&self, f: &mut impl FnMut(&T)) {
         f(self);
         match self {
@@ -569,6 +577,8 @@ struct Ctx {
     known_counts: BTreeMap<String, u64>,
     /// finite float leaves that came back bit-identical, per format (value positions)
     float_exact: [u64; 3],
+    /// the readers' nesting limits as the model states them (json, yaml, toml)
+    depth_limits: [usize; 3],
     k_fail: u64,
     d_fail: u64,
 }
@@ -625,6 +635,13 @@ impl Ctx {
         let m_fin = field(&resp, "fin") == "1";
         let m_sk = field(&resp, "sk") == "1";
         let m_json = field(&resp, "json").to_string();
+        let m_depth: usize = field(&resp, "depth").parse().unwrap_or(0);
+        if m_depth != t.depth_all() {
+            self.viol_k("Model.depth", json!({"input": req, "model": m_depth, "harness": t.depth_all()}));
+        }
+        if field(&resp, "ndepth").parse::<usize>().unwrap_or(usize::MAX) > m_depth {
+            self.viol_k("Model.depth (depth_norm_le evaluated)", json!({"input": req, "model": resp}));
+        }
         if field(&resp, "idem") != "1" {
             self.viol_k("Model.norm (norm_idem evaluated)", json!({"input": req, "model": resp}));
         }
@@ -679,6 +696,11 @@ impl Ctx {
                     );
                     continue;
                 }
+                (Err(e), true) if m_depth > self.depth_limits[FORMATS.iter().position(|f| f == fmt).unwrap()] && e.contains("nested") => {
+                    // explicit refusal of a value the reader could not take back (the repaired form of F-C20-5)
+                    self.rep.bump(&format!("{}_to_string_refuses_too_deep", fmt));
+                    continue;
+                }
                 (Err(e), true) => {
                     // the property says this value converts: a failing input
                     self.viol_d(&format!("C20:{}.to_string fails on a serializable value", fmt),
@@ -698,11 +720,29 @@ impl Ctx {
                     continue;
                 }
                 Ok(Err(e)) => {
-                    self.viol_d(&format!("C20:{}: own output does not parse", fmt), json!({"input": req, "format": fmt, "document": txt, "error": e}));
+                    let limit = self.depth_limits[FORMATS.iter().position(|f| f == fmt).unwrap()];
+                    let too_deep = m_depth > limit && (e.contains("recursion limit") || *fmt == "toml");
+                    if too_deep && self.open.iter().any(|o| o == "F-C20-5") {
+                        // deeper than the reader's recursion limit: serializes, cannot be read back
+                        *self.known_counts.entry("F-C20-5".into()).or_insert(0) += 1;
+                        self.rep.bump(&format!("{}_too_deep_to_read_back", fmt));
+                    } else if m_depth <= limit && e.contains("recursion limit") {
+                        self.viol_k("Model.*DepthLimit", json!({"input_depth": m_depth, "format": fmt, "model_limit": limit, "error": e,
+                            "note": "the reader refuses a nesting depth the model's limit constant allows"}));
+                    } else {
+                        self.viol_d(&format!("C20:{}: own output does not parse", fmt), json!({"input": if req.len() < 4000 { req.clone() } else { format!("(tree of depth {})", m_depth) }, "format": fmt, "document": if txt.len() < 4000 { txt.clone() } else { "(long)".into() }, "error": e}));
+                    }
                     continue;
                 }
                 Ok(Ok(v)) => v,
             };
+            {
+                let limit = self.depth_limits[FORMATS.iter().position(|f| f == fmt).unwrap()];
+                if m_depth > limit {
+                    self.viol_k("Model.*DepthLimit", json!({"input_depth": m_depth, "format": fmt, "model_limit": limit,
+                        "note": "the reader accepts a nesting depth beyond the model's limit constant"}));
+                }
+            }
             let Some(bt) = T::from_kvalue(&back) else {
                 self.viol_d(&format!("C20:{}: result is not a plain value", fmt), json!({"input": req, "document": txt}));
                 continue;
@@ -1834,6 +1874,9 @@ fn worker_main() {
     kvh::quiet_panics();
     let mut libs = Libs::new();
     kvh::worker::serve(|line| {
+        if let Some(spec) = line.strip_prefix("graph ") {
+            return graph_reply(&mut libs, spec);
+        }
         let Some((fmt, h)) = line.split_once(' ') else { return "bad".into() };
         let Some(bytes) = kvh::unhex(h) else { return "bad".into() };
         let Ok(doc) = String::from_utf8(bytes) else { return "bad".into() };
@@ -1853,6 +1896,57 @@ fn worker_main() {
             }
         }
     });
+}
+
+/// `graph` request of the worker: build real (possibly cyclic) containers and serialize node 0.
+/// spec: nodes separated by `;`, each `l` or `m` followed by elements `n<int>` / `r<idx>`.
+fn graph_reply(libs: &mut Libs, spec: &str) -> String {
+    enum Node {
+        L(KList),
+        M(KMap),
+    }
+    let specs: Vec<Vec<&str>> = spec.split(';').map(|n| n.split(' ').filter(|x| !x.is_empty()).collect()).collect();
+    let nodes: Vec<Node> = specs.iter().map(|n| if n.first() == Some(&"m") { Node::M(KMap::new()) } else { Node::L(KList::default()) }).collect();
+    let val = |n: &Node| match n {
+        Node::L(l) => KValue::List(l.clone()),
+        Node::M(m) => KValue::Map(m.clone()),
+    };
+    for (i, n) in specs.iter().enumerate() {
+        for (j, e) in n.iter().skip(1).enumerate() {
+            let v = if let Some(k) = e.strip_prefix('n') {
+                KValue::Number(KNumber::I64(k.parse().unwrap_or(0)))
+            } else if let Some(k) = e.strip_prefix('r') {
+                match nodes.get(k.parse::<usize>().unwrap_or(usize::MAX)) {
+                    Some(t) => val(t),
+                    None => return "bad".into(),
+                }
+            } else {
+                return "bad".into();
+            };
+            match &nodes[i] {
+                Node::L(l) => l.data_mut().push(v),
+                Node::M(m) => m.insert(format!("k{}", j).as_str(), v),
+            }
+        }
+    }
+    let root = val(&nodes[0]);
+    let rec = match kvh::catch(|| SerializableKValue(&root).serialize(Recorder)) {
+        Ok(Ok(sv)) => sv.text(),
+        Ok(Err(_)) => "err".to_string(),
+        Err(p) => format!("panic:{}", p.replace([' ', '\n'], "_")),
+    };
+    let mut out = format!("rec={}", rec);
+    for fmt in ["json", "yaml"] {
+        let r = match libs.to_string(fmt, &root) {
+            Ok(Ok(_)) => "ok",
+            Ok(Err(_)) => "err",
+            Err(_) => "panic",
+        };
+        out.push_str(&format!(" {}={}", fmt, r));
+    }
+    // cyclic Rc graphs are leaked on purpose (dropping them is not what is under test)
+    std::mem::forget(nodes);
+    out
 }
 
 fn corrupt(r: &mut Rng, doc: &str) -> String {
@@ -1999,10 +2093,105 @@ impl Ctx {
                     self.viol_d(&format!("C20:no-panic:{}.from_string", fmt), detail(&s));
                 } else if expect == "err" && kind != "err" {
                     self.viol_d(&format!("C20:{}: malformed or out-of-range document accepted", fmt), detail(&s));
+                } else if let Some(want) = expect.strip_prefix("val:") {
+                    if s != format!("ok {}", want) {
+                        self.viol_d(&format!("C20:{}: document read as a different value", fmt), json!({"format": fmt, "doc": doc, "doc_hex": hex(doc.as_bytes()), "impl": s, "expected": want}));
+                    }
                 } else if expect == "ok" && kind != "ok" {
                     self.viol_d(&format!("C20:{}: valid document rejected", fmt), detail(&s));
                 } else if kind == "bad" {
                     self.viol_k("harness worker protocol", detail(&s));
+                }
+            }
+        }
+    }
+}
+
+impl Ctx {
+    fn check_graph(&mut self, w: &mut kvh::worker::Worker, nodes: &[String]) {
+        let model_req = format!("graph 0{}", nodes.iter().map(|n| format!(" ({})", n)).collect::<String>());
+        let model = self.drv.ask(&model_req);
+        self.rep.case(&model_req, nodes.len() >= 2);
+        self.rep.bump(&format!("graph_model={}", if model == "err" { "cyclic(err)" } else { "acyclic(ok)" }));
+        let line = format!("graph {}", nodes.join(";"));
+        match w.request(&line, Duration::from_secs(20)) {
+            kvh::worker::Reply::Ok(s) => {
+                let rec = field(&s, "rec");
+                let expect_text = if model == "err" { "err" } else { "ok" };
+                if rec.starts_with("panic") || field(&s, "json") == "panic" || field(&s, "yaml") == "panic" {
+                    self.viol_d("C20:no-panic:serialize (aliased containers)", json!({"input": model_req, "impl": s}));
+                } else if rec != model {
+                    self.viol_k("Model.serG", json!({"input": model_req, "impl": rec, "model": model,
+                        "note": "serialize.rs on a container graph (sharing / cycles) vs Model.serG"}));
+                } else if field(&s, "json") != expect_text || field(&s, "yaml") != expect_text {
+                    self.viol_k("Model.serG (text layers)", json!({"input": model_req, "impl": s, "model": model}));
+                }
+            }
+            kvh::worker::Reply::Timeout => self.viol_d("C20:serializing an aliased value does not return", json!({"input": model_req})),
+            kvh::worker::Reply::Died(st) => self.viol_d("C20:serializing an aliased value aborts the process", json!({"input": model_req, "worker": st,
+                "note": "a container that contains itself must be a serializer error (31a9fd6), not a native stack overflow"})),
+        }
+    }
+
+    /// (D) integers outside i64 must be errors in every syntax; (K) JSON's number contract `jsonInt`
+    fn int_literals(&mut self) {
+        const LITS: &[&str] = &[
+            "0", "9223372036854775807", "9223372036854775808", "18446744073709551615", "18446744073709551616", "18446744073709551617",
+            "170141183460469231731687303715884105727", "170141183460469231731687303715884105728", "340282366920938463463374607431768211455",
+            "340282366920938463463374607431768211456", "10000000000000000000000000000000000000000", "-9223372036854775808", "-9223372036854775809",
+            "-18446744073709551616", "-170141183460469231731687303715884105728", "-170141183460469231731687303715884105729",
+            "-10000000000000000000000000000000000000000", "99999999999999999999", "-99999999999999999999", "12345678901234567890123",
+        ];
+        for lit in LITS {
+            let exact: Option<i64> = lit.parse().ok();
+            let nearest = lit.parse::<f64>().unwrap();
+            let model = self.drv.ask(&format!("jint {} f{:016x}", lit, nearest.to_bits()));
+            let forms: Vec<(&str, String, Box<dyn Fn(&T) -> Option<T>>)> = vec![
+                ("json", lit.to_string(), Box::new(|t: &T| Some(t.clone()))),
+                ("json", format!("[{}]", lit), Box::new(|t: &T| match t { T::Tu(x) if x.len() == 1 => Some(x[0].clone()), _ => None })),
+                ("json", format!("{{\"a\": {}}}", lit), Box::new(|t: &T| match t { T::M(x) if x.len() == 1 => Some(x[0].1.clone()), _ => None })),
+                ("yaml", lit.to_string(), Box::new(|t: &T| Some(t.clone()))),
+                ("yaml", format!("a: {}", lit), Box::new(|t: &T| match t { T::M(x) if x.len() == 1 => Some(x[0].1.clone()), _ => None })),
+                ("yaml", format!("- {}", lit), Box::new(|t: &T| match t { T::Tu(x) if x.len() == 1 => Some(x[0].clone()), _ => None })),
+                ("toml", format!("a = {}", lit), Box::new(|t: &T| match t { T::M(x) if x.len() == 1 => Some(x[0].1.clone()), _ => None })),
+                ("toml", format!("a = [{}]", lit), Box::new(|t: &T| match t { T::M(x) if x.len() == 1 => match &x[0].1 { T::Tu(y) if y.len() == 1 => Some(y[0].clone()), _ => None }, _ => None })),
+            ];
+            for (fmt, doc, pick) in forms {
+                let key = format!("intlit {} {}", fmt, hex(doc.as_bytes()));
+                self.rep.case(&key, true);
+                let got = match self.libs.from_string(fmt, &doc) {
+                    Err(p) => {
+                        self.viol_d(&format!("C20:no-panic:{}.from_string", fmt), json!({"format": fmt, "doc": doc, "panic": p}));
+                        continue;
+                    }
+                    Ok(Err(_)) => None,
+                    Ok(Ok(v)) => match T::from_kvalue(&v).and_then(|t| pick(&t)) {
+                        Some(t) => Some(t),
+                        None => {
+                            self.viol_d(&format!("C20:{}: integer literal read as an unexpected shape", fmt), json!({"format": fmt, "doc": doc, "impl": kvh::canon::value(&v)}));
+                            continue;
+                        }
+                    },
+                };
+                let got_txt = match &got { Some(t) => format!("ok {}", t.text()), None => "err".to_string() };
+                self.rep.bump(&format!("intlit[{}]={}", fmt, match &got { None => "err", Some(T::I(_)) => "int", Some(T::F(_)) => "float", Some(_) => "other" }));
+                if fmt == "json" && got_txt != model {
+                    self.viol_k("Model.jsonInt", json!({"format": fmt, "doc": doc, "impl": got_txt, "model": model}));
+                    continue;
+                }
+                match (exact, &got) {
+                    (Some(i), Some(T::I(j))) if i == *j => {}
+                    (Some(_), _) => self.viol_d(&format!("C20:{}: in-range integer literal not read exactly", fmt), json!({"format": fmt, "doc": doc, "impl": got_txt})),
+                    (None, None) => {}
+                    (None, Some(T::F(b)))
+                        if (fmt == "json" || (fmt == "yaml" && lit.parse::<i128>().is_err() && lit.parse::<u128>().is_err()))
+                            && *b == nearest.to_bits()
+                            && self.open.iter().any(|o| o == "F-C20-6") =>
+                    {
+                        // beyond u64 / below i64: serde_json hands over the nearest float
+                        *self.known_counts.entry("F-C20-6".into()).or_insert(0) += 1;
+                    }
+                    (None, Some(_)) => self.viol_d(&format!("C20:{}: out-of-range integer literal accepted", fmt), json!({"format": fmt, "doc": doc, "impl": got_txt, "expected": "error"})),
                 }
             }
         }
@@ -2052,7 +2241,7 @@ fn main() {
     rep.rule = "cases: (1) value trees (seeded generator, nesting ≤ 5, string/int/float pools + random bit patterns; corpus; finding witnesses) through serialize.rs→recorder, and through json/yaml/toml to_string∘from_string twice; (2) serde-data-model trees replayed into KValueVisitor; (3) values of a family of Rust types through to_koto_value/from_koto_value, plus edited Koto values into from_koto_value, plus an integer-bounds grid; (4) hand-written and corrupted documents into the three parsers (worker process). distinct = distinct canonical request lines; non-trivial = tree with ≥ 3 nodes / data-model tree with ≥ 2 nodes / Rust value other than a bare scalar / document of ≥ 2 bytes".into();
     let open: Vec<String> = rep.known_open().iter().filter_map(|e| e.get("id").and_then(|x| x.as_str()).map(|s| s.to_string())).collect();
     let drv = Driver::spawn(&args.driver);
-    let mut cx = Ctx { rep, drv, libs: Libs::new(), open, known_counts: Default::default(), float_exact: [0; 3], k_fail: 0, d_fail: 0 };
+    let mut cx = Ctx { rep, drv, libs: Libs::new(), open, known_counts: Default::default(), float_exact: [0; 3], depth_limits: [127, 128, 81], k_fail: 0, d_fail: 0 };
     let mut worker = kvh::worker::Worker::spawn(&["--worker".to_string()]);
     let thorough = args.thorough();
 
@@ -2168,6 +2357,64 @@ fn main() {
     rust!(Vec<Shape>, "Vec<Shape>"); rust!(Option<Vec<BTreeMap<String, Fill>>>, "Option<Vec<BTreeMap<String,Fill>>>");
     cx.oor_grid();
 
+    // ---- 3b. nesting depth around the readers' limits (F-C20-5) ----
+    {
+        let lim = cx.drv.ask("limits");
+        for (i, f) in FORMATS.iter().enumerate() {
+            match field(&lim, f).parse::<usize>() {
+                Ok(n) => cx.depth_limits[i] = n,
+                Err(_) => cx.viol_k("driver limits", json!({"response": lim})),
+            }
+        }
+        let mut depths: Vec<usize> = vec![];
+        for l in cx.depth_limits {
+            depths.extend([l - 1, l, l + 1, l + 2]);
+        }
+        depths.extend([100, 200]);
+        if thorough {
+            depths.extend([300, 400]);
+        }
+        depths.sort();
+        depths.dedup();
+        for d in depths {
+            for shape in 0..3 {
+                // a chain of d containers ending in a scalar; the top is a map (TOML needs one)
+                let mut t = T::I(1);
+                for lvl in 0..d {
+                    let top = lvl == d - 1;
+                    t = match (shape, top) {
+                        (_, true) | (1, _) => T::M(vec![(T::S("a".into()), t)]),
+                        (0, _) => T::Tu(vec![t]),
+                        _ => if lvl % 2 == 0 { T::L(vec![t, T::I(2)]) } else { T::M(vec![(T::S("k".into()), t), (T::S("z".into()), T::Null)]) },
+                    };
+                }
+                cx.check_tree(&t, "deep");
+            }
+        }
+    }
+
+    // ---- 3c. integer literals around the 64- and 128-bit bounds, in all three syntaxes (F-C20-6) ----
+    cx.int_literals();
+
+    // ---- 3d. aliasing: random container graphs (shared and cyclic) serialized in the worker ----
+    let n_graphs = if thorough { 4000 } else { 300 };
+    for _ in 0..n_graphs {
+        let n = 1 + rng.below(5);
+        let nodes: Vec<String> = (0..n)
+            .map(|_| {
+                let mut s = String::from(if rng.chance(1, 3) { "m" } else { "l" });
+                for _ in 0..rng.below(4) {
+                    if rng.chance(1, 2) { s.push_str(&format!(" n{}", rng.range(-3, 9))); } else { s.push_str(&format!(" r{}", rng.below(n))); }
+                }
+                s
+            })
+            .collect();
+        cx.check_graph(&mut worker, &nodes);
+    }
+    for g in [vec!["l n1 r0"], vec!["m r0"], vec!["l r1", "m n2 r0"], vec!["l r1 r2 r1", "l n1", "m r1"], vec!["l r1 r1", "l r2 r2", "l r3 r3", "l n7"]] {
+        cx.check_graph(&mut worker, &g.iter().map(|x| x.to_string()).collect::<Vec<_>>());
+    }
+
     // ---- 4. documents ----
     let mut docs = fixed_docs();
     if let Some(dir) = &args.corpus {
@@ -2175,6 +2422,21 @@ fn main() {
     }
     for (f, d, e) in &docs {
         cx.check_doc(&mut worker, f, d, e, "fixed");
+    }
+    // TOML date/time literals: the reader hands over a one-entry map with the crate's private key
+    // (Model.tomlDatetime); the value loses its type but is stable from then on
+    for lit in ["1979-05-27", "07:32:00", "1979-05-27T07:32:00Z", "1979-05-27T00:32:00.999999-07:00", "1979-05-27T07:32:00", "0001-01-01", "23:59:59.5"] {
+        let model = cx.drv.ask(&format!("de (map (s{} s{}))", hex(b"$__toml_private_datetime"), hex(lit.as_bytes())));
+        let Some(val) = model.strip_prefix("ok ") else {
+            cx.viol_k("Model.tomlDatetime", json!({"literal": lit, "model": model}));
+            continue;
+        };
+        cx.check_doc(&mut worker, "toml", &format!("a = {}", lit), &format!("val:(m (sx61 {}))", val), "datetime");
+        cx.check_doc(&mut worker, "toml", &format!("a = [{}]", lit), &format!("val:(m (sx61 (t {})))", val), "datetime");
+        // value → text → value for the value just read: stable (the key is written quoted)
+        if let Some(t) = parse_val(&format!("(m (sx61 {}))", val)) {
+            cx.check_tree(&t, "datetime");
+        }
     }
     let n_docs = if thorough { 20000 } else { 1200 };
     let mut produced = 0;
@@ -2224,6 +2486,17 @@ fn main() {
                 let line = format!("toml {}", hex(doc.as_bytes()));
                 !matches!(worker.request(&line, Duration::from_secs(20)), kvh::worker::Reply::Ok(s) if s == "err")
             }
+            "F-C20-5" => {
+                let mut t = T::I(1);
+                for _ in 0..128 {
+                    t = T::Tu(vec![t]);
+                }
+                match cx.libs.to_string("json", &t.to_kvalue()) {
+                    Ok(Ok(txt)) => !matches!(cx.libs.from_string("json", &txt), Ok(Ok(_))),
+                    _ => false, // to_string refuses: the failure is explicit, the finding is repaired
+                }
+            }
+            "F-C20-6" => matches!(cx.libs.from_string("json", "-9223372036854775809"), Ok(Ok(_))) || matches!(cx.libs.from_string("json", "18446744073709551616"), Ok(Ok(_))),
             "F-C20-2" => {
                 let x: NestedOpt = Some(None);
                 let y: OptUnit = Some(());
